@@ -57,7 +57,16 @@ pub fn check(c: &Case, thorough: bool) -> Checked {
     let sp = splits(c, thorough);
     let max_n = sp.iter().map(|s| s.0).max().unwrap_or(0);
     let inp = input_fn(c.input_seed, c.finite_inputs);
+    // programs whose global initialiser calls a stateful function abort on the VM before the first
+    // sample (recorded finding C03-stateful-call-in-global-init): those run on the WASM runtime only
+    let wasm_only = c.origin.as_deref().is_some_and(|o| o.starts_with("template:main-seeded"));
+    // a hand-written program may name the recorded defect class that keeps it from the WASM runtime
+    // (`// @quarantine-wasm: <class>`); the line only has an effect while that class is listed in KNOWN_FINDINGS.txt
+    let vm_only = c.src.lines().filter_map(|l| l.trim().strip_prefix("// @quarantine-wasm:")).any(|q| crate::util::q(q.trim()));
     for b in [Backend::Vm, Backend::Wasm] {
+        if wasm_only && b == Backend::Vm || vm_only && b == Backend::Wasm {
+            continue;
+        }
         let Ok(base) = run_uninterrupted(b, c, max_n + m) else { continue };
         for (n, k) in &sp {
             let mut s = match Session::build(b, &c.src, false, None) {
@@ -191,6 +200,22 @@ pub fn meta(args: &Args) -> Value {
     })
 }
 
+/// Programs whose global initialiser calls a stateful function, so that the state storage already
+/// holds non-zero words when the first sample runs, and whose cells return to exactly 0.0 every few
+/// samples while they run: a swap at such a sample must carry the zero over (not the initialiser's value).
+pub fn main_seeded_programs() -> Vec<(String, String)> {
+    let mut v = vec![];
+    for (i, inc) in ["0.25", "0.5", "0.125"].iter().enumerate() {
+        v.push((format!("phasor{i}"), format!("fn phasor(inc){{\n  (self + inc) % 1.0\n}}\nlet start = phasor({inc})\nfn dsp(){{\n  phasor({inc}) + start * 0.0\n}}\n")));
+    }
+    v.push(("mem".into(), "fn gate(x){ mem(x) }\nlet s = gate(5.0)\nfn dsp(){\n  gate(now % 3.0) * 10.0 + s * 0.0 + now\n}\n".into()));
+    v.push(("delay".into(), "fn d(x){ delay(4, x, 2.0) }\nlet s = d(7.0)\nfn dsp(){\n  d(now % 2.0) * 10.0 + s * 0.0 + now\n}\n".into()));
+    v.push(("flip".into(), "fn flip(){ 1.0 - self }\nlet s = flip()\nfn dsp(){\n  flip() * 10.0 + s * 0.0 + now\n}\n".into()));
+    v.push(("pair".into(), "fn pair(x)->(float,float){\n  let (a, b) = self\n  (b, x)\n}\nlet (p, q) = pair(3.0)\nfn dsp(){\n  let (a, b) = pair(now % 2.0)\n  a + b * 10.0 + (p + q) * 0.0\n}\n".into()));
+    v.push(("two-sites".into(), "fn cnt(){ (self + 1.0) % 4.0 }\nfn flip(){ 1.0 - self }\nlet s = cnt() + flip() + cnt()\nfn dsp(){\n  cnt() + flip() * 10.0 + cnt() * 100.0 + s * 0.0\n}\n".into()));
+    v
+}
+
 /// hand-written programs marked `@swap-safe` (state only in self/mem/delay cells reachable from dsp)
 fn swap_safe_programs() -> Vec<(String, String)> {
     let mut v = vec![];
@@ -213,13 +238,29 @@ pub fn run(args: &Args, out: &mut Out) {
     // the enumerated family "every state word is audible" (every third member in the quick tier)
     let fam: Vec<Case> = super::progcase::family_cases().into_iter().enumerate().filter(|(i, _)| args.thorough() || i % 3 == (args.seed % 3) as usize).map(|(_, c)| c).collect();
     let ngen = args.cases(120, 4000) + progs.len();
-    let total = ngen + fam.len();
+    let seeded = main_seeded_programs();
+    let total = ngen + fam.len() + seeded.len();
     let exec = exec_with(args);
     drive(
         args,
         out,
         total,
         |idx, rng| {
+            if idx >= ngen + fam.len() {
+                let (tag, src) = seeded.get(idx - ngen - fam.len())?.clone();
+                return Some(Case {
+                    src,
+                    n: 12,
+                    input_seed: rng.next(),
+                    finite_inputs: true,
+                    prog: None,
+                    expect: None,
+                    scheduler: false,
+                    path: None,
+                    origin: Some(format!("template:main-seeded/{tag}")),
+                    split: None,
+                });
+            }
             if idx >= ngen {
                 let mut c = fam.get(idx - ngen).cloned()?;
                 c.input_seed = rng.next();
